@@ -71,6 +71,7 @@ MUT = {
  'P6 failed queued DialPeer reported also for AlreadyConnected (condition dropped)': ('C05', lambda: rep(MGR,
    "                                if !std::matches!(error, Error::AlreadyConnected) {",
    "                                if true {")),
+ 'P7 revert fix e5e6517 (failed queued DialAddress is only logged, handle accepts /p2p anywhere)': ('C05', lambda: revert('e5e6517')),
  # ---- C06
  'N1 can_accept_connection: incoming >= max  ->  > max (off by one)': ('C06', lambda: rep(LIM,
    """        if is_listener {
